@@ -244,7 +244,7 @@ def main():
                                           "replay", "%s.%s.json" % (prop, h))
                         os.makedirs(os.path.dirname(rp), exist_ok=True)
                         json.dump({"property": prop, "harness": h, "values": vals, "failed_checks": hr["failed_checks"],
-                                   "failed_assertion": pick[1], "wide": tier == "thorough", "native": rr,
+                                   "failed_assertion": pick[1], "wide": tier == "thorough", "features": g.get("features"), "native": rr,
                                    "how": "VERIF_REPLAY_VALS=%s <replay build>/verif_replay %s" % (",".join(vals), h)},
                                   open(rp, "w"), indent=1)
                         if kf:
